@@ -1,6 +1,7 @@
 package main
 
 import (
+	"fmt"
 	"go/ast"
 	"go/token"
 	"go/types"
@@ -29,6 +30,8 @@ func checkC04(p *Prog, r *Report) {
 	r.rule("C04.W3", "wnd_unused returns 0 or rcv_wnd - rcv_queue.Len() under Len < rcv_wnd; every store to segment.wnd is wnd_unused(), a copy of the flush template, or the wire parser's value", 4)
 	r.rule("C04.W8", "every segment encoded by flush had its wnd stored from this flush's wnd_unused() (directly or via the template) on every path since the start of flush / of its loop iteration", 3)
 	r.rule("C04.W9", "the two quantities the admission test of W4 is computed from are what they stand for: rmt_wnd comes from the constructor default and the wnd field of regular packets only — a FEC-recovered (older) packet must not overwrite a newer advertisement (= C03.P5); snd_una is stored by shrink_buf alone, as the head of snd_buf or snd_nxt — never copied from a packet's una field, which a peer can forge beyond snd_nxt (= C01.S4)", 3)
+	r.rule("C04.W10", "the window a packet advertises is computed after everything the same Input call delivers: no path inside Input leads from a flush to a later parse_data (an ACK sent before its segment is queued advertises a slot that is already taken)", 1)
+	r.rule("C04.W11", "the three configuration inputs of the admission bound (nocwnd, snd_wnd, rcv_wnd) are stored only by the constructor and the configuration calls NoDelay / WndSize: no data-path or shutdown code switches congestion control off or widens the window behind the user's back", 3)
 	r.rule("C04.W4", "every snd_buf.Push is dominated by _itimediff(snd_nxt, snd_una+w) < 0 with w <= snd_wnd, w <= rmt_wnd and, when nocwnd == 0, w <= cwnd; the pushed segment comes from snd_queue.Pop and gets sn = snd_nxt", 1)
 	r.rule("C04.W5", "with congestion control on, the timeout arm (lostSegs > 0) stores cwnd = 1 and no later store on the way to the exit raises it", 1)
 	r.rule("C04.W6", "in WriteBuffers every kcp.Send is dominated by a branch on WaitSnd() < snd_wnd taken in the same critical section (no Unlock between test and Send); the refused path reaches the blocking select", 2)
@@ -115,6 +118,22 @@ func checkC04(p *Prog, r *Report) {
 			continue
 		}
 		construct := "snd_buf.Push(" + exprString(s.Call.Args[0]) + ")"
+		orig, origBase := s, base
+		// the push was moved into a helper with one call site and nothing before it in the helper touches the
+		// window variables: the admission test is the one that guards the call
+		if !hasAdmissionAtom(p, fs, base) && base.Op == "var" {
+			wf := []*types.Var{p.Field("KCP", "snd_nxt"), p.Field("KCP", "snd_una"), p.Field("KCP", "snd_wnd"), p.Field("KCP", "rmt_wnd"), p.Field("KCP", "cwnd"), p.Field("KCP", "nocwnd")}
+			if caller, call, params, okL := p.liftPastPrefix(s.Fn, s.Call, wf...); okL && len(params) > 0 && params[0] != nil && base.Obj == types.Object(params[0]) {
+				cs := p.siteOf(call, caller)
+				if cs.Recv != nil {
+					fa = p.FactsOf(caller)
+					fs = fa.AtNode(call)
+					base = fs.Resolve(cs.Recv)
+					s = Site{Fn: caller, Call: call, Recv: cs.Recv, Args: cs.Args}
+					construct += " (through " + orig.Fn.Name + ", called once)"
+				}
+			}
+		}
 		// find the admission atom: diff(snd_nxt, snd_una + w) < 0
 		sndNxt := p.F(base, "KCP", "snd_nxt")
 		sndUna := p.F(base, "KCP", "snd_una")
@@ -149,9 +168,13 @@ func checkC04(p *Prog, r *Report) {
 			r.ok("C04.W4", s.Fn.Name, p.Pos(s.Call), construct, "dominated by _itimediff(snd_nxt, snd_una+"+pretty(w.Key())+") < 0 with "+pretty(w.Key())+" <= snd_wnd, rmt_wnd and (nocwnd == 0) cwnd")
 		}
 		// provenance of the pushed segment and its numbering
-		checkSendNumbering(p, r, s, base)
+		checkSendNumbering(p, r, orig, origBase)
 	}
 
+	// ---- W10
+	checkFlushAfterDelivery(p, r)
+	// ---- W11
+	checkWindowConfigOwners(p, r)
 	// ---- W5
 	checkTimeoutCollapse(p, r)
 	// ---- W6
@@ -443,24 +466,51 @@ func checkSendNumbering(p *Prog, r *Report, s Site, base *Term) {
 	}
 	v, _ := p.Info.Uses[id].(*types.Var)
 	pop := p.Method("RingBuffer", "Pop")
-	okProv := false
-	for _, a := range p.Assignments(s.Fn, v) {
-		as, isAs := a.Node.(*ast.AssignStmt)
-		if !isAs || len(as.Rhs) != 1 {
-			okProv = false
-			break
+	fromPop := func(fn *FuncInfo, v *types.Var) bool {
+		okProv := false
+		for _, a := range p.Assignments(fn, v) {
+			as, isAs := a.Node.(*ast.AssignStmt)
+			if !isAs || len(as.Rhs) != 1 {
+				return false
+			}
+			call, isCall := ast.Unparen(as.Rhs[0]).(*ast.CallExpr)
+			if !isCall || p.Callee(call) != pop {
+				return false
+			}
+			site := p.siteOf(call, fn)
+			if _, isQ := fieldBase(site.Recv, p.Field("KCP", "snd_queue")); !isQ {
+				return false
+			}
+			okProv = true
 		}
-		call, isCall := ast.Unparen(as.Rhs[0]).(*ast.CallExpr)
-		if !isCall || p.Callee(call) != pop {
-			okProv = false
-			break
+		return okProv
+	}
+	okProv := fromPop(s.Fn, v)
+	if !okProv && v != nil && p.isParam(v) {
+		// the segment is a parameter of a helper called from one place: the argument there is the popped one
+		if caller, call, okL := p.singleCaller(rootFuncInfo(s.Fn)); okL {
+			params := []*types.Var{}
+			for _, fl := range rootFuncInfo(s.Fn).Decl.Type.Params.List {
+				for _, nm := range fl.Names {
+					pv, _ := p.Info.Defs[nm].(*types.Var)
+					params = append(params, pv)
+				}
+			}
+			onlyParamFieldStores := true
+			for _, a := range p.Assignments(s.Fn, v) {
+				_ = a
+				onlyParamFieldStores = false // the parameter itself is reassigned in the helper
+			}
+			for i, pv := range params {
+				if pv == v && i < len(call.Args) && onlyParamFieldStores {
+					if aid, isId := ast.Unparen(call.Args[i]).(*ast.Ident); isId {
+						if av, _ := p.Info.Uses[aid].(*types.Var); av != nil {
+							okProv = fromPop(caller, av)
+						}
+					}
+				}
+			}
 		}
-		site := p.siteOf(call, s.Fn)
-		if _, isQ := fieldBase(site.Recv, p.Field("KCP", "snd_queue")); !isQ {
-			okProv = false
-			break
-		}
-		okProv = true
 	}
 	if !okProv {
 		r.bad("C04.W4", s.Fn.Name, p.Pos(s.Call), construct, "pushed segment is not (only) the result of snd_queue.Pop()", "")
@@ -819,6 +869,93 @@ func checkCwndGrowth(p *Prog, r *Report) {
 				w = c.DescribePath(res.Path)
 			}
 			r.bad("C04.W7", input.Name, p.Pos(st.Node), construct, why, w)
+		}
+	}
+}
+
+// hasAdmissionAtom: the facts contain a test diff(snd_nxt, snd_una + w) < 0 for the control block base.
+func hasAdmissionAtom(p *Prog, fs *FactSet, base *Term) bool {
+	sndNxt := p.F(base, "KCP", "snd_nxt")
+	sndUna := p.F(base, "KCP", "snd_una")
+	for _, a := range fs.resolvedAtoms() {
+		if a.Op != "<" || !a.Args[1].IsConst() || a.Args[1].Int != 0 {
+			continue
+		}
+		if findAddend(a.Args[0], sndNxt, sndUna, p) != nil {
+			return true
+		}
+	}
+	return false
+}
+
+// checkFlushAfterDelivery: C04.W10.
+func checkFlushAfterDelivery(p *Prog, r *Report) {
+	input := p.FuncOf(p.Method("KCP", "Input"))
+	c := p.CFG(input)
+	flushM, parseM := p.Method("KCP", "flush"), p.Method("KCP", "parse_data")
+	// functions that reach parse_data / flush (helpers extracted from Input count)
+	reaches := func(call *ast.CallExpr, target *types.Func) bool {
+		f := p.Callee(call)
+		if f == nil {
+			return false
+		}
+		if f == target {
+			return true
+		}
+		if fi := p.FuncOf(f); fi != nil && fi.Body != nil && f.Pkg() == p.Types {
+			return p.TransEffects(fi).Calls[target]
+		}
+		return false
+	}
+	has := func(nd ast.Node, target *types.Func) bool {
+		hit := false
+		inspectShallow(nd, func(x ast.Node) bool {
+			if call, ok := x.(*ast.CallExpr); ok && reaches(call, target) {
+				hit = true
+			}
+			return true
+		})
+		return hit
+	}
+	n := 0
+	for _, pt := range c.AllPoints() {
+		if !has(pt.Node(), flushM) {
+			continue
+		}
+		n++
+		res := c.FindPath(PathQuery{From: Point{pt.B, pt.I + 1}, IsTarget: func(nd ast.Node, _ Point) bool { return has(nd, parseM) }})
+		construct := fmt.Sprintf("flush #%d in Input", n)
+		if res.Found {
+			r.bad("C04.W10", input.Name, p.Pos(pt.Node()), construct, "a path leads from this flush to a later parse_data in the same Input call: the ACK goes out with the window computed before the acknowledged segment (and everything it releases from the reorder buffer) is queued — more free window is advertised than the delivery queue has", c.DescribePath(res.Path))
+		} else {
+			r.ok("C04.W10", input.Name, p.Pos(pt.Node()), construct, "no parse_data is reachable after it: the advertised window counts every segment of this datagram")
+		}
+	}
+	if n == 0 {
+		r.ok("C04.W10", input.Name, p.Pos(input.Node), "flush in Input", "Input never flushes")
+	}
+}
+
+// checkWindowConfigOwners: C04.W11.
+func checkWindowConfigOwners(p *Prog, r *Report) {
+	owners := map[string]map[string]bool{
+		"nocwnd":  {"NewKCP": true, "(*KCP).NoDelay": true},
+		"snd_wnd": {"NewKCP": true, "(*KCP).WndSize": true},
+		"rcv_wnd": {"NewKCP": true, "(*KCP).WndSize": true},
+	}
+	for _, name := range []string{"nocwnd", "snd_wnd", "rcv_wnd"} {
+		okAll := true
+		for _, st := range p.FieldStores(p.Field("KCP", name)) {
+			fn := rootFuncInfo(st.Fn)
+			nm := fn.Name
+			if owners[name][nm] || owners[name]["(*KCP)."+nm] {
+				continue
+			}
+			okAll = false
+			r.bad("C04.W11", st.Fn.Name, p.Pos(st.Node), "store(KCP."+name+") in "+st.Fn.Name, "KCP."+name+" is stored outside the constructor and its configuration call: the limit min(snd_wnd, rmt_wnd, cwnd) / the advertised window the user configured is changed by "+st.Fn.Name, "")
+		}
+		if okAll {
+			r.ok("C04.W11", "KCP."+name, "-", "stores of KCP."+name, "only in the constructor and the configuration call")
 		}
 	}
 }
